@@ -55,6 +55,11 @@ typedef struct shim_if {
 } shim_if;
 
 static shim_if *cur;
+/* several interfaces served by one process: INST k selects which one the following lines drive; every event is
+ * tagged with its instance and the trace is validated per instance (each must behave as it would alone) */
+#define MAX_INST 4
+static shim_if *insts[MAX_INST];
+static int sel = 0;
 
 static void die(const char *m) { fprintf(stderr, "HARNESS: line %ld: %s\n", lineno, m); exit(2); }
 
@@ -174,7 +179,7 @@ static void log_state(void) {
 }
 
 static void ev_begin(const char *name) {
-    fprintf(tr, "{\"e\":\"%s\",\"ln\":%ld,", name, lineno);
+    fprintf(tr, "{\"e\":\"%s\",\"ln\":%ld,\"inst\":%d,", name, lineno, sel);
 }
 static void ev_end(void) {
     fprintf(tr, ",\"hellos\":[%s]}\n", hello_log);
@@ -200,6 +205,7 @@ static void do_new(int with_tbl) {
     s->recvBuffer = malloc(s->MTU);
     vp_if[1] = &s->v;
     cur = s;
+    insts[sel] = s;
     ev_begin("new");
     {
         /* the per-state timeouts through the verification hook of lltdAutomata.c, not through the struct layout */
@@ -280,6 +286,14 @@ int main(int argc, char **argv) {
             vp_now_ms = 1000;      /* scenario boundary: every scenario starts at the same virtual time */
             t_origin = 0;
             fprintf(tr, "{\"e\":\"mark\",\"ln\":%ld,\"name\":\"%s\"}\n", lineno, nt > 1 ? tok[1] : "");
+            for (int i = 0; i < MAX_INST; i++) insts[i] = NULL;
+            sel = 0;
+        } else if (!strcmp(c, "INST")) {
+            int k = nt > 1 ? atoi(tok[1]) : 0;
+            if (k < 0 || k >= MAX_INST) die("bad instance");
+            sel = k;
+            cur = insts[k];
+            vp_if[1] = cur ? &cur->v : NULL;
         } else if (!strcmp(c, "NEW")) {
             do_new(nt > 1 ? atoi(tok[1]) : 1);
         } else if (!strcmp(c, "CLOCK")) {
